@@ -1,5 +1,6 @@
 //! hv-core: drivers and replayers for the parts of Elvis that need only `elvis-core`.
 mod arph;
+mod codech;
 mod dnsh;
 mod ipfrag;
 mod iptab;
@@ -33,6 +34,8 @@ fn main() {
         "arp-drive" => arph::drive(&args),
         "dns-drive" => dnsh::drive(&args),
         "sock-drive" => sockh::drive(&args),
+        "codec-drive" => codech::drive(&args),
+        "decode-drive" => codech::decode_drive(&args),
         "reasm-drive" => ipfrag::reasm_drive(&args),
         other => {
             eprintln!("unknown command {other}");
